@@ -1696,10 +1696,16 @@ def judge_c07(case, lab):
             del entries[idx[0]]
     if not any(nd["k"] == "ds" and nd["disp"] for nd in case["nodes"]):
         return res
-    g = build.Built(lab, case["nodes"], tabs0, raises=a.get("raises", ()))
+    # ... and the dispatch expressions before the first call: undo set_dispatch, last first
+    nodes0 = copy.deepcopy(case["nodes"])
+    for h in reversed([h for h in hist if h["a"] == "SetDispatch"]):
+        nodes0[nodes0[h["d"] - 1]["disp"] - 1]["p"] = h["prev"]
+    g = build.Built(lab, nodes0, tabs0, raises=a.get("raises", ()))
     if g.log:
         res.bad("construction-runs", "building / registering ran %s" % [(e[0], e[1]) for e in g.log][:4])
     res.nontrivial = bool(late) or any(len(t) for t in case["tabs"])
+    if any(h["a"] == "SetDispatch" for h in hist):
+        res.nontrivial = True
     seen = []  # (dict, outcome) pairs observed earlier in this history
     for i, h in enumerate(hist):
         if h["a"] == "Register":
@@ -1707,6 +1713,14 @@ def judge_c07(case, lab):
             g.obj[h["d"]].register(dec(h["alias"]), g.obj[h["impl"]])
             if len(g.log) != n0:
                 res.bad("register-runs", "register() ran %s" % [(e[0], e[1]) for e in g.log[n0:]][:4])
+            continue
+        if h["a"] == "SetDispatch":
+            n0 = len(g.log)
+            m = nodes0[h["d"] - 1]["disp"]
+            g.obj[m] = g._build(m, dict(nodes0[m - 1], p=h["p"]))
+            g.obj[h["d"]].set_dispatch(g.obj[m])
+            if len(g.log) != n0:
+                res.bad("set-dispatch-runs", "set_dispatch() ran %s" % [(e[0], e[1]) for e in g.log[n0:]][:4])
             continue
         o = dec(h["o"])
         got = observe.call(lambda: g.root.evaluate(copy.deepcopy(o)), lab)
